@@ -129,16 +129,100 @@ theorem caller_manifest_hardfork :
     Interops.callerManifestFromContextSince = 4 ∧ Interops.hardforks[4]? = some "Domovoi" ∧
     ∀ hf ∈ List.range 9, (Params.realAt hf).callerFromContext = decide (4 ≤ hf) := by decide
 
+/-! ### The stored manifest is the machine's own state (not an input of the program) -/
+
+/-- only `update` / `destroy` change ContractManagement's storage. -/
+theorem storage_unchanged (P : Params) (s : State) (i : Instr) (hu : ∀ m, i ≠ .update m) (hd : i ≠ .destroy) :
+    (step P s i).storage = s.storage := by
+  unfold step
+  split
+  · rfl
+  · split
+    · rfl
+    · cases i with
+      | update m => exact absurd rfl (hu m)
+      | destroy => exact absurd rfl hd
+      | prim p => simp only; split <;> rfl
+      | call p tk rq t => simp only; split <;> rfl
+      | loadScript p rq => simp only; split <;> rfl
+      | nativeCall p t => simp only; split <;> rfl
+      | ret => simp only; split <;> rfl
+
+theorem find_filter_ne (l : List (Nat × Manifest)) (h h' : Nat) (hne : h' ≠ h) :
+    (l.filter (fun e => e.1 != h)).find? (fun e => e.1 == h') = l.find? (fun e => e.1 == h') := by
+  induction l with
+  | nil => rfl
+  | cons e es ih =>
+    by_cases he : e.1 = h
+    · have h2 : (e.1 == h') = false := by
+        simp only [he, beq_eq_false_iff_ne, ne_eq]; exact fun x => hne x.symm
+      have h4 : (h == h') = false := by rw [← he]; exact h2
+      simp [List.filter_cons, he, List.find?_cons, h4, ih]
+    · have h3 : (e.1 != h) = true := by simp [he]
+      simp [List.filter_cons, h3, List.find?_cons, ih]
+
+/-- after ContractManagement.update(m) executed for the caller `h`, `ic.GetContract(h)` answers `m`, and every other
+contract's answer is unchanged. -/
+theorem update_then_lookup (P : Params) (s : State) (m : Manifest) (cur caller : Frame) (rest : List Frame) (h : Nat)
+    (hs : s.halted = false) (hst : s.stack = cur :: caller :: rest) (hh : caller.hash = some h) :
+    lookupStored (step P s (.update m)).storage (some h) = some m ∧
+    ∀ h', h' ≠ h → lookupStored (step P s (.update m)).storage (some h') = lookupStored s.storage (some h') := by
+  simp only [step, hs, hst, hh, lookupStored]
+  constructor
+  · simp
+  · intro h' hne
+    have : ((h == h') = false) := by simpa using fun e => hne e.symm
+    simp only [Bool.false_eq_true, if_false, Option.bind_some, List.find?_cons, this]
+    rw [find_filter_ne _ _ _ hne]
+
+/-- after ContractManagement.destroy executed for the caller `h`, `ic.GetContract(h)` finds nothing; the other
+contracts' answers are unchanged. -/
+theorem destroy_then_lookup (P : Params) (s : State) (cur caller : Frame) (rest : List Frame) (h : Nat)
+    (hs : s.halted = false) (hst : s.stack = cur :: caller :: rest) (hh : caller.hash = some h) :
+    lookupStored (step P s .destroy).storage (some h) = Option.none ∧
+    ∀ h', h' ≠ h → lookupStored (step P s .destroy).storage (some h') = lookupStored s.storage (some h') := by
+  simp only [step, hs, hst, hh, lookupStored]
+  constructor
+  · simp only [Bool.false_eq_true, if_false, Option.bind_some, Option.map_eq_none_iff, List.find?_eq_none]
+    intro e he
+    simp only [List.mem_filter, bne_iff_ne, ne_eq] at he
+    simpa using he.2
+  · intro h' hne
+    simp only [Bool.false_eq_true, if_false, Option.bind_some]
+    rw [find_filter_ne _ _ _ hne]
+
+/-- a call that goes through was permitted with the manifest the storage holds for the caller AT THAT MOMENT (the
+argument of `consulted` before Domovoi): the machine computes it, the program does not supply it. -/
+theorem call_consults_current_storage (P : Params) (s : State) (p : Prim) (tk : Bool) (rq : CallFlags) (t : Target)
+    (cur : Frame) (rest : List Frame) (hs : s.halted = false) (hst : s.stack = cur :: rest)
+    (hgo : (step P s (.call p tk rq t)).halted = false) :
+    permitted P cur t (lookupStored s.storage cur.hash) = true := by
+  cases hp : permitted P cur t (lookupStored s.storage cur.hash) with
+  | true => rfl
+  | false => simp [step, hs, hst, hp, halt] at hgo
+
 /-- negation witness for "a deployed contract calls a non-safe method only with a matching permission" under the
-hardfork configurations before Domovoi: a contract WITHOUT any permission that is no longer found in storage
-(it destroyed itself earlier in the same execution) enters a non-safe method of another contract; from Domovoi on
-the same program faults. Reproduced on the chain (known finding `call-without-permission:destroyed-caller`). -/
+hardfork configurations before Domovoi, as a HISTORY of the machine: contract 9 (stored with the single permission
+"ContractManagement (1000): any method", running with it) calls ContractManagement, which destroys it, returns, and
+then enters the non-safe method `a` of contract 2: not halted at hardfork index 3, halted at index 4 (Domovoi: the
+executing context's manifest counts). Reproduced on the chain (known finding
+`call-without-permission:destroyed-caller`). With `update` to a manifest without permissions instead, a wildcard
+caller is refused before Domovoi and allowed after. -/
 theorem legacy_destroyed_caller_calls_unchecked :
-    let caller : Frame := Frame.entry all (some ⟨[], []⟩)
+    let m9 : Manifest := ⟨[], [⟨.hash 1000, Option.none⟩]⟩
+    let caller : Frame := { flags := all, manifest := some m9, viaSafe := false, hash := some 9 }
     let sc : Prim := ⟨ofNat 5, c⟩
-    let prog : List Instr := [.call sc false all ⟨2, ⟨[], []⟩, "a", false⟩ Option.none]
-    (run (Params.realAt 3) (State.init caller) prog).halted = false ∧
-    (run (Params.realAt 4) (State.init caller) prog).halted = true := by decide
+    let prog : List Instr := [.call sc false all ⟨1000, ⟨[], []⟩, "destroy", false⟩, .destroy, .ret,
+                              .call sc false all ⟨2, ⟨[], []⟩, "a", false⟩]
+    (run (Params.realAt 3) (State.init caller [(9, m9)]) prog).halted = false ∧
+    (run (Params.realAt 4) (State.init caller [(9, m9)]) prog).halted = true ∧
+    (let w : Manifest := ⟨[], [⟨.wildcard, Option.none⟩]⟩
+     let cw : Frame := { flags := all, manifest := some w, viaSafe := false, hash := some 1 }
+     let prog2 : List Instr := [.call sc false all ⟨1000, ⟨[], []⟩, "update", false⟩, .update ⟨[], []⟩, .ret,
+                                .call sc false all ⟨2, ⟨[], []⟩, "a", false⟩]
+     (run (Params.realAt 3) (State.init cw [(1, w)]) prog2).halted = true ∧
+     (run (Params.realAt 4) (State.init cw [(1, w)]) prog2).halted = false) := by decide
+
 
 /-! ## 2b. Call paths: requested flags, and the exact exception to the safe-method drop -/
 
